@@ -19,50 +19,52 @@ Proof.
   pose proof (body_plain a Ha) as Hp. rewrite Forall_forall in Hp. apply Hp, Hr.
 Qed.
 
-Lemma step_plain_add : forall l p tz rdt inc ser udp so rq r, plain r ->
+Lemma step_plain_add : forall l p tz rdt inc ser udp so rq r, plain r -> quiet tz ->
   step l (mkSt p (Some tz) rdt inc ser udp so false false false rq) (single r) =
   (mkSt p (Some (zput (rkey r) (add1 (look tz (rkey r)) (r_ttl r) (r_data r)) tz)) rdt inc ser udp so false false false rq, None).
 Proof.
-  intros l p tz rdt inc ser udp so rq r Hp. pose proof Hp as (Hc & Ht & Hn & Httl & Hsg).
+  intros l p tz rdt inc ser udp so rq r Hp Hq. pose proof Hp as (Hc & Ht & Hn & Httl & Hsg).
   unfold step. cbn [done txn expecting delmode].
   assert (E : (s_type (single r) =? tSOA) = false) by (apply Z.eqb_neq; exact Ht).
   rewrite E. cbn [andb].
   assert (Z : in_zone (s_name (single r)) = true) by (apply Z.leb_le; exact Hn).
-  rewrite Z. cbn [negb]. rewrite (t_add_single tz r Hp). reflexivity.
+  rewrite Z. cbn [negb]. rewrite (t_add_single tz r Hp Hq). reflexivity.
 Qed.
 
-Lemma step_plain_del : forall l p tz rdt inc ser udp so rq r, plain r ->
+Lemma step_plain_del : forall l p tz rdt inc ser udp so rq r, plain r -> quiet tz ->
   step l (mkSt p (Some tz) rdt inc ser udp so false false true rq) (single r) =
   match del1 (look tz (rkey r)) (r_data r) with
   | Some oe => (mkSt p (Some (zset (rkey r) oe tz)) rdt inc ser udp so false false true rq, None)
   | None => (mkSt p (Some tz) rdt inc ser udp so false false true rq, Some eDeleteNotExact)
   end.
 Proof.
-  intros l p tz rdt inc ser udp so rq r Hp. pose proof Hp as (Hc & Ht & Hn & Httl & Hsg).
+  intros l p tz rdt inc ser udp so rq r Hp Hq. pose proof Hp as (Hc & Ht & Hn & Httl & Hsg).
   unfold step. cbn [done txn expecting delmode].
   assert (E : (s_type (single r) =? tSOA) = false) by (apply Z.eqb_neq; exact Ht).
   rewrite E. cbn [andb].
   assert (Z : in_zone (s_name (single r)) = true) by (apply Z.leb_le; exact Hn).
-  rewrite Z. cbn [negb]. rewrite (t_del_single tz r Hc).
+  rewrite Z. cbn [negb]. rewrite (t_del_single tz r Hc (quiet_consistent _ Hq)).
   destruct (del1 (look tz (rkey r)) (r_data r)); reflexivity.
 Qed.
 
-Lemma loopn_adds : forall rs p tz rdt inc ser udp so rq, Forall plain rs ->
+Lemma loopn_adds : forall rs p tz rdt inc ser udp so rq, Forall plain rs -> quiet tz ->
   loopn (mkSt p (Some tz) rdt inc ser udp so false false false rq) (map single rs) =
   (mkSt p (Some (adds tz rs)) rdt inc ser udp so false false false rq, None).
 Proof.
-  induction rs as [|r rs IH]; intros p tz rdt inc ser udp so rq Hf; cbn [map loopn adds]; [reflexivity|].
-  inversion Hf; subst. rewrite step_plain_add by assumption. apply IH; assumption.
+  induction rs as [|r rs IH]; intros p tz rdt inc ser udp so rq Hf Hq; cbn [map loopn adds]; [reflexivity|].
+  inversion Hf; subst. rewrite step_plain_add by assumption. apply IH; [assumption|].
+  apply quiet_zput; [exact Hq|rewrite rkey_kind; apply H1].
 Qed.
 
-Lemma loopn_dels : forall rs p tz tz' rdt inc ser udp so rq, Forall plain rs -> dels tz rs = Some tz' ->
+Lemma loopn_dels : forall rs p tz tz' rdt inc ser udp so rq, Forall plain rs -> quiet tz -> dels tz rs = Some tz' ->
   loopn (mkSt p (Some tz) rdt inc ser udp so false false true rq) (map single rs) =
   (mkSt p (Some tz') rdt inc ser udp so false false true rq, None).
 Proof.
-  induction rs as [|r rs IH]; intros p tz tz' rdt inc ser udp so rq Hf Hd; cbn [map loopn dels] in *.
+  induction rs as [|r rs IH]; intros p tz tz' rdt inc ser udp so rq Hf Hq Hd; cbn [map loopn dels] in *.
   - inversion Hd; reflexivity.
   - inversion Hf; subst. rewrite step_plain_del by assumption.
-    destruct (del1 (look tz (rkey r)) (r_data r)); [|discriminate]. apply IH; assumption.
+    destruct (del1 (look tz (rkey r)) (r_data r)) as [oe|] eqn:E; [|discriminate]. apply IH; try assumption.
+    apply quiet_zset; [exact Hq|]. unfold del1 in E. destruct (look tz (rkey r)); discriminate.
 Qed.
 
 Section IXFR.
@@ -94,30 +96,28 @@ Proof.
 Qed.
 
 (* S2: the SOA that starts an addition section *)
-Lemma step_add_start : forall l p tz vn b ser, ttl_ok (v_ttl b) ->
+Lemma step_add_start : forall l p tz vn b ser, ttl_ok (v_ttl b) -> quiet tz ->
   step l (ist p tz ser (single (soa_rr vn)) false true) (single (soa_rr b)) =
   (ist p (zput soakey (v_ttl b, [v_soa b]) tz) (v_serial b) (single (soa_rr vn)) false false, None).
 Proof.
-  intros l p tz vn b ser Httl. unfold step, ist. cbn [done txn incremental delmode soa set_delmode negb].
+  intros l p tz vn b ser Httl Hq. unfold step, ist. cbn [done txn incremental delmode soa set_delmode negb].
   change ((s_type (single (soa_rr b)) =? tSOA) && (s_name (single (soa_rr b)) =? origin)) with true. cbv iota.
   cbn [orb]. rewrite andb_false_r.
   rewrite soa_serial_single. cbn [incremental set_expecting set_serial].
-  unfold t_add, single, soa_rr, skey. cbn [s_class s_type s_name s_ttl s_data s_covers r_class r_type r_name r_ttl r_data r_covers].
-  rewrite (clamp_ok _ Httl). reflexivity.
+  rewrite t_add_soa by assumption. reflexivity.
 Qed.
 
 (* S3: the final SOA, last record of its message *)
-Lemma step_final : forall p tz vn, ttl_ok (v_ttl vn) ->
+Lemma step_final : forall p tz vn, ttl_ok (v_ttl vn) -> quiet tz ->
   step Last (ist p tz (v_serial vn) (single (soa_rr vn)) false false) (single (soa_rr vn)) =
   (mkSt (zput soakey (v_ttl vn, [v_soa vn]) tz) None tIXFR true (v_serial vn) u
         (Some (single (soa_rr vn))) true false true false, None).
 Proof.
-  intros p tz vn Httl. unfold step, ist. cbn [done txn incremental delmode soa set_delmode negb].
+  intros p tz vn Httl Hq. unfold step, ist. cbn [done txn incremental delmode soa set_delmode negb].
   change ((s_type (single (soa_rr vn)) =? tSOA) && (s_name (single (soa_rr vn)) =? origin)) with true. cbv iota.
   rewrite soa_eqb, Z.eqb_refl. cbn [andb orb].
   rewrite soa_serial_single. cbn [expecting incremental serial]. rewrite Z.eqb_refl. cbn [negb andb].
-  unfold t_add, single, soa_rr, skey. cbn [s_class s_type s_name s_ttl s_data s_covers r_class r_type r_name r_ttl r_data r_covers].
-  rewrite (clamp_ok _ Httl). reflexivity.
+  rewrite t_add_soa by assumption. reflexivity.
 Qed.
 
 Lemma look_zone_of : forall v k,
@@ -135,6 +135,9 @@ Lemma section_run : forall p tz vn a b e,
 Proof.
   intros p tz vn a b e [Hta Ha] [Htb Hb] Hne Hz.
   destruct (diff_apply (v_rest a) (v_rest b) tz Ha Hb Hz) as [z1 [Hd [_ Hadd]]].
+  assert (Hq : quiet tz) by (apply (agree_quiet (v_rest a)); assumption).
+  assert (Hq1 : quiet z1) by (apply (quiet_dels _ _ _ Hd Hq)).
+  assert (Hq2 : quiet (zput soakey (v_ttl b, [v_soa b]) z1)) by (apply quiet_zput; [exact Hq1|discriminate]).
   exists (adds (zput soakey (v_ttl b, [v_soa b]) z1) (zminus (v_rest b) (v_rest a))). split.
   - unfold diff_seq. cbn [map loopn]. rewrite step_del_start by assumption.
     rewrite map_app, loopn_app.
@@ -218,9 +221,9 @@ Proof.
   pose proof Hok as (Hne & Hv0 & Hch & _ & _).
   destruct (chain_run u chain z0 z0 vn v0 true Hne Hv0 Hch (chain_ok_soa v0 chain Hok)) as [tz' [Hr Hz']].
   { intros k Hk. rewrite Hz, look_zone_of. apply key_eqb_neq in Hk. rewrite Hk. reflexivity. }
-  pose proof (version_wf_last chain v0 Hv0 Hch) as [Httl _].
+  pose proof (version_wf_last chain v0 Hv0 Hch) as Hvn. pose proof Hvn as [Httl _].
   eexists. eexists. split; [exact Hr|]. split; [reflexivity|].
-  split; [apply step_final; exact Httl|]. split; [reflexivity|].
+  split; [apply step_final; [exact Httl|exact (zeq_zone_of_quiet _ _ Hvn Hz')]|]. split; [reflexivity|].
   cbn [pub]. intros k. rewrite look_zput, look_zone_of.
   destruct (key_eqb k soakey) eqn:E; [reflexivity|]. rewrite Hz', look_zone_of, E. reflexivity.
 Qed.
